@@ -145,14 +145,14 @@ func (f *File) TokensOpt(r *hx.Rand) []string {
 			if im.Alias != "" {
 				add(im.Alias)
 			}
-			add(q(im.ID))
+			add(lit(im.ID))
 		}
 		add(")")
 	}
 	if len(f.Options) > 0 || r.Intn(10) == 0 {
 		add("options", "(")
 		for _, o := range f.Options {
-			add(o.Name, "=", q(o.Value))
+			add(o.Name, "=", lit(o.Value))
 		}
 		add(")")
 	}
@@ -457,4 +457,38 @@ func MutateText(r *hx.Rand, s string) string {
 		j = " " + j + " "
 	}
 	return s[:i] + j + s[i:]
+}
+
+// EscapedString is the raw text of a string literal that contains backslash sequences the scanner
+// accepts. The language defines no escapes: the tree records such a literal as it is written.
+func EscapedString(r *hx.Rand) string {
+	parts := []string{`\\`, `\t`, `\n`, `\"`, `\x41`, `\u00e9`, `\101`, `\a`, `\'`[:0] + `\r`, "a", "b/c", " ", "x.y"}
+	n := 1 + r.Intn(4)
+	var sb strings.Builder
+	esc := false
+	for i := 0; i < n; i++ {
+		p := parts[r.Intn(len(parts))]
+		if strings.HasPrefix(p, `\`) {
+			esc = true
+		}
+		sb.WriteString(p)
+	}
+	if !esc {
+		sb.WriteString(`\\`)
+	}
+	return sb.String()
+}
+
+// EscapeStrings gives every import id and option value of the file an escaped string (at least one
+// string exists afterwards).
+func EscapeStrings(r *hx.Rand, f *File) {
+	if len(f.Imports) == 0 && len(f.Options) == 0 {
+		f.Options = append(f.Options, Option{Name: "go_package", Value: ""})
+	}
+	for i := range f.Imports {
+		f.Imports[i].ID = EscapedString(r)
+	}
+	for i := range f.Options {
+		f.Options[i].Value = EscapedString(r)
+	}
 }
